@@ -105,6 +105,14 @@ impl PayloadDelta {
         }
     }
 
+    /// Returns a copy of the delta with `n` added to its serial.
+    #[cfg(routinator_verif)]
+    pub fn verif_shift_serial(&self, n: u32) -> Self {
+        let mut res = self.clone();
+        res.serial = res.serial.add(n);
+        res
+    }
+
     /// Returns whether this is an empty delta.
     ///
     /// A delta is empty if there is nothing announced and nothing withdrawn.
